@@ -166,7 +166,11 @@ pub fn cmd_registry(args: &[String]) -> i32 {
             let (d, g) = (format!("{}", x), format!("{:?}", x));
             format!("{:.3}", x) == d && format!("{:.0}", x) == d && format!("{:40}", x).trim() == d && format!("{:>40}", x).trim() == d
                 && format!("{:.1?}", x) == g && format!("{:.0?}", x) == g
-                && format!("{:.1?}", (0.25f32, x)) == format!("(0.2, {})", g)
+                && format!("{:.1?}", (0.25f32, &x)) == format!("(0.2, {})", g)
+                // the alternate flag (pretty-printing of an enclosing structure) lays a fallback out over several lines at most: same tokens
+                && { let norm = |s: String| s.chars().filter(|c| !c.is_whitespace()).collect::<String>().replace(",)", ")");
+                     norm(format!("{:#?}", x)) == norm(g.clone()) && format!("{:#}", x) == d
+                     && norm(format!("{:#?}", Some(&x))) == format!("Some({})", norm(g.clone())) }
         });
     }}; }
     opts!("TlsRecordType", TlsRecordType, u8); opts!("TlsHandshakeType", TlsHandshakeType, u8); opts!("TlsVersion", TlsVersion, u16);
